@@ -56,6 +56,9 @@ CONSTANTS
 Msgs(r) ==
     CASE r = "ReadSector"        -> <<"resp", "data">>     \* RPCReadSectorResponse, then DataLength raw bytes
       [] r = "ReadUnaligned"     -> <<"resp", "data">>     \* RPCReadSector with an offset that is not leaf-aligned
+      [] r = "ReadInvalid"       -> <<"resp", "data">>     \* ... with a range the request validation refuses (empty, unaligned end, beyond the sector)
+      [] r = "RootsOutOfRange"   -> <<"resp">>             \* RPCSectorRoots with a range beyond the contract's sectors (or empty)
+      [] r = "AppendEmpty"       -> <<"resp", "sig">>      \* RPCAppendSectors with no roots
       [] r = "WriteSector"       -> <<"resp">>
       [] r = "VerifySector"      -> <<"resp">>
       [] r = "SectorRoots"       -> <<"resp">>
@@ -77,9 +80,12 @@ Informational == {"LatestRevision", "AccountBalance"}
 \* correct outcome is an error -- returned by the client itself without any exchange (rpc.go since the
 \* fix commits ff651f4 / 60c450d), or after the host's refusal.  A host could answer them all the same
 \* (fault resp.All:otherRange): a client that dials and accepts such an answer violates the property.
-Unservable == {"ReadUnaligned", "FreeOutOfRange"}
+\* Further edges of the argument validation: a read range that is empty / ends unaligned / leaves the
+\* sector, a roots range that is empty / leaves the contract (both refused by the client itself), an
+\* append of nothing (sent; the honest host refuses).
+Unservable == {"ReadUnaligned", "FreeOutOfRange", "ReadInvalid", "RootsOutOfRange", "AppendEmpty"}
 
-AllRPCs == {"ReadUnaligned", "FreeOutOfRange", "ReadSector", "WriteSector", "VerifySector", "SectorRoots", "AppendSectors", "FreeSectors",
+AllRPCs == {"ReadUnaligned", "FreeOutOfRange", "ReadInvalid", "RootsOutOfRange", "AppendEmpty", "ReadSector", "WriteSector", "VerifySector", "SectorRoots", "AppendSectors", "FreeSectors",
             "FundAccounts", "ReplenishAccounts", "ReplenishPools", "LatestRevision", "AccountBalance"}
 
 Swap == "swapFromOtherExchange"
@@ -109,6 +115,11 @@ Catalog ==
     \* ---- free of a sector the contract does not have: the host answers with a valid proof of the OLD
     \*      root for the in-range part of the request and some new root; nothing can be "the requested change"
     \cup E("FreeOutOfRange", "resp", "All", {"otherRange"}, "unbind")
+    \* ---- the other argument edges: the host answers all the same (some leaf with its proof; some roots
+    \*      with proof and signature; an empty append with a signature over the unchanged root)
+    \cup E("ReadInvalid", "resp", "All", {"otherRange"}, "unbind")
+    \cup E("RootsOutOfRange", "resp", "All", {"otherRange"}, "unbind")
+    \cup E("AppendEmpty", "resp", "All", {"asSent"}, "coherent")
     \* ---- write: root computed locally and compared (rpc.go:540-560)
     \cup E("WriteSector", "resp", "Root", {"flip", Swap, "otherRoot"}, "unbind")
     \cup RawLast("WriteSector", "resp")
@@ -140,7 +151,11 @@ Catalog ==
     \cup E("FreeSectors", "resp", "OldSubtreeHashes", Lists \cup {Swap, "otherRoot", "wrongCount"}, "evidence")
     \cup E("FreeSectors", "resp", "OldLeafHashes", Lists \cup {Swap, "otherRoot", "wrongCount"}, "evidence")
     \cup E("FreeSectors", "resp", "NewMerkleRoot", {"flip", Swap, "otherRange", "otherRoot"}, "unbind")
-    \cup E("FreeSectors", "resp", "All", {"otherRange", "wrongCount"}, "unbind")   \* a complete proof -- for freeing other sectors
+    \cup E("FreeSectors", "resp", "All", {"otherRange", "wrongCount"}, "unbind")
+    \* the host serves the index list AS SENT, without the honest host's validation (duplicates, order):
+    \* valid diff proof and signature for swap-with-tail applied once per index received.  For a client
+    \* that sends the normal form (distinct, descending) this IS the honest answer.
+    \cup E("FreeSectors", "resp", "All", {"asSent"}, "coherent")   \* a complete proof -- for freeing other sectors
     \cup RawInner("FreeSectors", "resp")
     \cup HostSig("FreeSectors", "sig")
     \cup RawLast("FreeSectors", "sig")
@@ -169,6 +184,7 @@ Catalog ==
 \* what the client functions verify (field granularity), read off rpc.go
 Checked ==
        {<<"ReadSector", f>> : f \in {"Proof", "DataLength", "Bytes", "All", "Raw"}}
+  \cup {<<"ReadInvalid", "All">>, <<"RootsOutOfRange", "All">>}
   \cup {<<"ReadUnaligned", "All">>, <<"FreeOutOfRange", "All">>}   \* the client refuses these requests itself (before dialing)
   \cup {<<"WriteSector", f>> : f \in {"Root", "Raw"}}
   \cup {<<"VerifySector", f>> : f \in {"Proof", "Leaf", "All", "Raw"}}
@@ -183,7 +199,7 @@ Checked ==
 Cat(r) == {c \in Catalog : c.rpc = r}
 F(c) == [msg |-> c.msg, field |-> c.field, how |-> c.how, k |-> 0]
 MsgSet(r) == {Msgs(r)[i] : i \in DOMAIN Msgs(r)}
-RawField(r, m) == IF r \in {"ReadSector", "ReadUnaligned"} /\ m = "data" THEN "Bytes" ELSE "Raw"
+RawField(r, m) == IF r \in {"ReadSector", "ReadUnaligned", "ReadInvalid"} /\ m = "data" THEN "Bytes" ELSE "Raw"
 
 \* Two faults of one plan must write disjoint parts of the exchange: distinct fields, where the
 \* composite faults write several fields ("All": every field of the message -- for a read also the
@@ -237,19 +253,23 @@ Detected(r, f) == /\ <<r, f.field>> \in Checked \ DevUnchecked
                   /\ ClassOf(r, f) \in {"unbind", "evidence", "random"}
 
 -----------------------------------------------------------------------------
-VARIABLES rpc, variant, plan, pos, outcome, bound, act
-vars == <<rpc, variant, plan, pos, outcome, bound, act>>
-view == <<rpc, variant, plan, pos, outcome, bound>>
+\* wire: the request the client put on the wire is the NORMAL FORM of the caller's arguments (free:
+\* the distinct indices in descending order; everything else: the arguments as given).  TRUE while
+\* nothing was sent.  The abstract client always normalises; the recorded value comes from the request
+\* bytes the man in the middle captured.
+VARIABLES rpc, variant, plan, pos, outcome, bound, wire, act
+vars == <<rpc, variant, plan, pos, outcome, bound, wire, act>>
+view == <<rpc, variant, plan, pos, outcome, bound, wire>>
 
 Init ==
     /\ rpc = "none" /\ variant = 0 /\ plan = {} /\ pos = 0
-    /\ outcome = "idle" /\ bound = FALSE
+    /\ outcome = "idle" /\ bound = FALSE /\ wire = TRUE
     /\ act = [op |-> "Init"]
 
 Start(r, v, p) ==
     /\ outcome = "idle"
     /\ rpc' = r /\ variant' = v /\ plan' = p /\ pos' = 1
-    /\ outcome' = "running" /\ bound' = FALSE
+    /\ outcome' = "running" /\ bound' = FALSE /\ wire' = TRUE
     /\ act' = [op |-> "Start", rpc |-> r, variant |-> v, plan |-> p, must |-> MustOf(r, p),
                classes |-> {[msg |-> f.msg, field |-> f.field, how |-> f.how, k |-> f.k, class |-> ClassOf(r, f)] : f \in p}]
 
@@ -266,7 +286,7 @@ Deliver ==
                             /\ bound' = ~Unbinds(rpc, plan)   \* ground truth of the statement
                             /\ UNCHANGED pos
                        ELSE pos' = pos + 1 /\ UNCHANGED <<outcome, bound>>
-    /\ UNCHANGED <<rpc, variant, plan>>
+    /\ UNCHANGED <<rpc, variant, plan, wire>>
 
 Next ==
     \/ \E r \in RPCs, v \in Variants : \E p \in Plans(r) : Start(r, v, p)
@@ -278,11 +298,15 @@ Spec == Init /\ [][Next]_vars
 TypeOK ==
     /\ rpc \in RPCs \cup {"none"}
     /\ outcome \in {"idle", "running", "ok", "err"}     \* never a panic
-    /\ bound \in BOOLEAN
+    /\ bound \in BOOLEAN /\ wire \in BOOLEAN
     /\ Cardinality(plan) <= IF MaxFaults > 1 THEN MaxFaults ELSE 1
 
 \* C10: a call that reports success is bound (the informational RPCs make no claim)
 SuccessImpliesBound == (outcome = "ok" /\ rpc \notin Informational) => bound
+
+\* what goes on the wire is the normal form of the arguments (an honest host refuses anything else,
+\* a dishonest one can serve it as sent: see FreeSectors resp.All:asSent)
+WireNormalForm == wire
 
 \* ... and the check cannot pass by the client rejecting everything
 HonestSucceeds == (outcome \in {"ok", "err"} /\ plan = {} /\ rpc \notin Unservable) => outcome = "ok"
